@@ -94,10 +94,12 @@ def run_engine(c, pid):
     if thorough:
         plan.append(("core", ["enum", 4, 2, "core"]))
         plan.append(("core3", ["enum", 3, 3, "core"]))
+        plan.append(("words", ["enum", 7, 2, "words"]))
         plan.append(("ls", ["enum", 4, 2, "ls"]))
         bidi_n = 7
     else:
         plan.append(("core", ["enum", 3, 2, "core"]))
+        plan.append(("words", ["enum", 5, 1, "words"]))
         plan.append(("ls", ["enum", 3, 2, "ls"]))
         bidi_n = 5
     if pid == "C08":
